@@ -65,19 +65,26 @@ BigBadAt(j) ==
 \* hex encode of content with special prefixes / suffixes on every channel: 0x + two digits per byte, whatever the bytes
 NMagicItems == NMagicContents * (IF Thorough THEN 4 ELSE 1)
 MagicAt(j) == CItem("magic_content", HexCmd("encode", ChanNo(j + ((j - 1) \div NMagicContents)), MagicContent((j - 1) % NMagicContents)))
+\* every byte value 0..255 in the place of a digit: after the prefix, and as the very first byte
+NEveryByte == 2 * 256
+EveryByteAt(j) ==
+  LET b == (j - 1) % 256
+  IN  CItem("every_byte", HexCmd("decode", ChanNo(j \div 3), IF j <= 256 THEN <<48, 120, b, 97>> ELSE <<b, 97, 48, 49>>))
 O1 == 2 * NEnc
 O2 == O1 + NLayouts
 O3 == O2 + Len(Malformed)
 O4 == O3 + NBigBad
 O5 == O4 + 2 * Len(UniWs)
-Count == O5 + NMagicItems
+O6 == O5 + NMagicItems
+Count == O6 + NEveryByte
 ItemAt(g) ==
   IF g <= O1 THEN (IF g % 2 = 1 THEN EncAt((g + 1) \div 2) ELSE DecAt(g \div 2, g))
   ELSE IF g <= O2 THEN LayoutAt(g - O1)
   ELSE IF g <= O3 THEN MalformedAt(g - O2)
   ELSE IF g <= O4 THEN BigBadAt(g - O3)
   ELSE IF g <= O5 THEN UniAt(g - O4)
-  ELSE MagicAt(g - O5)
+  ELSE IF g <= O6 THEN MagicAt(g - O5)
+  ELSE EveryByteAt(g - O6)
 VARIABLE n
 INSTANCE GenBase
 =============================================================================
